@@ -5,6 +5,7 @@ import RjModel.Lemmas.WalkerLemmas
 import RjModel.Generated.Walker
 import RjModel.Generated.ConfirmShape
 import RjModel.Model.ConfirmShape
+import RjModel.Lemmas.TryFromLemmas
 /-! # C17 — the directory walk lists every included entry exactly once and always finishes -/
 namespace Rj.C17
 open Rj Rj.Walker
@@ -155,6 +156,19 @@ theorem C17_walk_order_listing (fs : FS) (hw : fs.Wf) (r : FPath)
 `handle_get_entries` in doer.rs, extracted on every run, equal the copies in `Model/ConfirmShape.lean`): the path an entry is listed under is the one
 relative to the root, once; every entry the walk yields is sent; then the end marker. -/
 theorem C17_listing_shape : Generated.filterFuncShape = filterFuncShapeRef ∧ Generated.handleGetEntriesShape = handleGetEntriesShapeRef := ⟨by rfl, by rfl⟩
+
+
+/-- **The path an entry is listed under** (`RootRelativePath::try_from`, whose loop is translated from root_relative_path.rs on every run - which characters
+refuse a component, what goes between two components): for components as a directory walk yields them (not empty, no slash of either kind) the result is
+the components joined by single slashes - the model's `joinSlash`, the spelling every planner and doer theorem uses; a component with a slash or a
+backslash in it refuses the whole path (the entry is reported as an error, not listed under another name). -/
+theorem C17_try_from_is_join : Generated.tryFromTranslated = true ∧
+    (∀ comps, (∀ c ∈ comps, GoodC c) → Generated.tryFromSrc comps = some (joinSlash comps)) ∧
+    (∀ pre c post, (∀ x ∈ pre, GoodC x) → ('/' ∈ c ∨ '\\' ∈ c) → Generated.tryFromSrc (pre ++ c :: post) = none) :=
+  ⟨by decide, tryFrom_good, tryFrom_refuses⟩
+
+example : Generated.tryFromSrc ["proj".toList, "proj".toList, "main.py".toList] = some "proj/proj/main.py".toList := by decide
+example : Generated.tryFromSrc ["a".toList, "b\\c".toList] = none := by decide
 
 
 end Rj.C17
